@@ -268,6 +268,18 @@ func (e *Exec) checkGauges() {
 	n := e.hist.N()
 	if content.Canon() != e.hist.Last().Canon() {
 		d := e.hist.Last().Diff(content, "")
+		if strings.Contains(d, "child \"") && (strings.Contains(d, "want present") || strings.Contains(d, "want absent")) {
+			// Only the presence of a child collection differs.  Reported at the
+			// end of the run unless something else fails first, so that a
+			// structural change that is *never* persisted (a different defect)
+			// is not hidden behind this one.
+			if e.deferred == nil {
+				e.deferred = &Violation{Prop: e.c.Prop, Class: "gauges-zero-but-dirty", OpIdx: e.opIdx,
+					Detail: e.detail(map[string]string{"symptom": "gauges-zero-but-dirty", "diff": d}),
+					Msg: fmt.Sprintf("CurDirtyOps/Bytes/Segments are all zero after %d batches, but the lower level does not hold them all: %s", n, d)}
+			}
+			return
+		}
 		e.failD("gauges-zero-but-dirty", map[string]string{"symptom": "gauges-zero-but-dirty", "diff": d},
 			"CurDirtyOps/Bytes/Segments are all zero after %d batches, but the lower level does not hold them all: %s", n, d)
 	}
